@@ -12,6 +12,14 @@ package fzf
 //
 // TestVerifWalkerRandom (J): builds larger random trees itself (seeded), walks them, and logs tree + options +
 // output for Judge_Walker.tla.  It makes no judgement.
+//
+// Trees may contain link cycles (a link to its own directory, to an ancestor, to the working directory, directories
+// that link to each other).  The specification says the walk of such a tree is finite and short; a walk that is not
+// must not take the harness down with it.  Every walk therefore runs under a budget that the ORCHESTRATOR derives
+// from the length of the list TLC predicts (cap, items) and a wall-clock limit: when either is exceeded the walk is
+// stopped through the walker's own stop path (Reader.terminate for readFiles, SIGKILL for the binary) and the
+// observation is reported as cut ("cap" / "deadline") together with the items seen so far.  The harness does not
+// judge: a cut observation simply is not the list TLC predicted.
 
 import (
 	"bytes"
@@ -24,7 +32,9 @@ import (
 	"sort"
 	"strings"
 	"sync"
+	"sync/atomic"
 	"testing"
+	"time"
 
 	"github.com/junegunn/fzf/src/util"
 	"golang.org/x/sys/unix"
@@ -44,6 +54,37 @@ type vwRun struct {
 	Skips  []string `json:"skips"`
 	Roots  []string `json:"roots"`
 	Bin    bool     `json:"bin"`
+	Cap    int      `json:"cap"` // stop the walk after this many items (0: vwDefaultCap)
+}
+
+const vwDefaultCap = 100000
+const vwKeepWhenCut = 300 // items kept of a cut observation (enough to see the laps)
+
+// wall-clock limits: generous for walks that take well under a millisecond.  After the first walk that had to be
+// stopped in this process the limit shrinks, so that a tree-wide runaway does not cost (runs x limit); every
+// mismatch is re-run alone (fresh process, full limit) by the orchestrator before it counts.
+var vwCuts int32
+
+func vwDeadline() time.Duration {
+	first, later := 20*time.Second, 500*time.Millisecond
+	if v := os.Getenv("VERIF_WALK_DEADLINE_MS"); v != "" {
+		var ms int
+		fmt.Sscanf(v, "%d", &ms)
+		if ms > 0 {
+			first = time.Duration(ms) * time.Millisecond
+		}
+	}
+	if atomic.LoadInt32(&vwCuts) > 0 {
+		return later
+	}
+	return first
+}
+
+func (r vwRun) capItems() int {
+	if r.Cap > 0 {
+		return r.Cap
+	}
+	return vwDefaultCap
 }
 
 type vwCase struct {
@@ -174,14 +215,28 @@ func (e *vwEnv) normalise(items []string) []string {
 	return out
 }
 
-// walkPkg runs the real readFiles and returns everything that reached the pusher.
-func (e *vwEnv) walkPkg(r vwRun) []string {
+// walkPkg runs the real readFiles and returns everything that reached the pusher, and "" / "cap" / "deadline".
+func (e *vwEnv) walkPkg(r vwRun) ([]string, string) {
 	var mu sync.Mutex
 	got := []string{}
-	reader := NewReader(func(b []byte) bool {
+	cut := ""
+	limit := r.capItems()
+	var reader *Reader
+	stop := func(why string) { // mu held
+		if cut == "" {
+			cut = why
+			reader.terminate() // the walker's own way of stopping a walk (seen by the next callback)
+		}
+	}
+	reader = NewReader(func(b []byte) bool {
 		s := string(b) // copy: the walker hands out its own bytes
 		mu.Lock()
-		got = append(got, s)
+		if cut == "" {
+			got = append(got, s)
+			if len(got) > limit {
+				stop("cap")
+			}
+		}
 		mu.Unlock()
 		return true
 	}, util.NewEventBox(), nil, false, false)
@@ -189,8 +244,36 @@ func (e *vwEnv) walkPkg(r vwRun) []string {
 	if skips == nil {
 		skips = []string{}
 	}
-	reader.readFiles(e.realRoots(r.Roots), walkerOpts{file: r.File, dir: r.Dir, follow: r.Follow, hidden: r.Hidden}, skips)
-	return e.normalise(got)
+	done := make(chan struct{})
+	go func() {
+		defer close(done)
+		reader.readFiles(e.realRoots(r.Roots), walkerOpts{file: r.File, dir: r.Dir, follow: r.Follow, hidden: r.Hidden}, skips)
+	}()
+	timer := time.NewTimer(vwDeadline())
+	defer timer.Stop()
+	select {
+	case <-done:
+	case <-timer.C:
+		mu.Lock()
+		stop("deadline")
+		mu.Unlock()
+		select {
+		case <-done:
+		case <-time.After(120 * time.Second):
+			e.t.Fatalf("readFiles did not return within 120 s after Reader.terminate()")
+		}
+	}
+	<-done
+	mu.Lock()
+	defer mu.Unlock()
+	if cut != "" {
+		atomic.AddInt32(&vwCuts, 1)
+		sort.Strings(got)
+		if len(got) > vwKeepWhenCut {
+			got = got[:vwKeepWhenCut]
+		}
+	}
+	return e.normalise(got), cut
 }
 
 func vwOptString(r vwRun) string {
@@ -211,7 +294,7 @@ func vwOptString(r vwRun) string {
 }
 
 // walkBin runs the real binary in filter mode with a tty on stdin; variant picks among equivalent spellings.
-func (e *vwEnv) walkBin(r vwRun, variant int) ([]string, string) {
+func (e *vwEnv) walkBin(r vwRun, variant int) ([]string, string, string) {
 	args := []string{"-f", "", "--print0", "--walker=" + vwOptString(r)}
 	roots := e.realRoots(r.Roots)
 	defaultSkips := len(r.Skips) == 2 && r.Skips[0] == ".git" && r.Skips[1] == "node_modules" ||
@@ -229,31 +312,95 @@ func (e *vwEnv) walkBin(r vwRun, variant int) ([]string, string) {
 	cmd := exec.Command(e.fzf, args...)
 	cmd.Dir = e.base
 	cmd.Stdin = e.slave
-	var stdout, stderr bytes.Buffer
-	cmd.Stdout = &stdout
+	var stderr bytes.Buffer
 	cmd.Stderr = &stderr
-	err := cmd.Run()
+	pipe, err := cmd.StdoutPipe()
+	if err != nil {
+		return nil, "", err.Error()
+	}
+	if err := cmd.Start(); err != nil {
+		return nil, "", err.Error()
+	}
+	// read the output under the item budget and the wall-clock limit; a process that exceeds either is killed
+	type chunk struct {
+		items []string
+		cut   string
+		tail  bool // output did not end with NUL
+	}
+	resc := make(chan chunk, 1)
+	limit := r.capItems()
+	go func() {
+		var c chunk
+		buf := make([]byte, 64*1024)
+		var cur []byte
+		for {
+			n, rerr := pipe.Read(buf)
+			for _, b := range buf[:n] {
+				if b == 0 {
+					c.items = append(c.items, string(cur))
+					cur = cur[:0]
+				} else {
+					cur = append(cur, b)
+				}
+			}
+			if len(c.items) > limit {
+				c.cut = "cap"
+				break
+			}
+			if rerr != nil {
+				break
+			}
+		}
+		c.tail = len(cur) > 0 && c.cut == ""
+		resc <- c
+	}()
+	var c chunk
+	timer := time.NewTimer(vwDeadline())
+	defer timer.Stop()
+	select {
+	case c = <-resc:
+		if c.cut != "" {
+			cmd.Process.Kill()
+		}
+	case <-timer.C:
+		cmd.Process.Kill()
+		c = <-resc
+		c.cut = "deadline"
+	}
+	err = cmd.Wait()
+	if c.cut != "" {
+		atomic.AddInt32(&vwCuts, 1)
+		sort.Strings(c.items)
+		if len(c.items) > vwKeepWhenCut {
+			c.items = c.items[:vwKeepWhenCut]
+		}
+		return e.normalise(c.items), c.cut, ""
+	}
 	code := 0
 	if err != nil {
 		if ee, ok := err.(*exec.ExitError); ok {
 			code = ee.ExitCode()
 		} else {
-			return nil, err.Error()
+			return nil, "", err.Error()
 		}
 	}
 	if code != 0 && code != 1 {
-		return nil, fmt.Sprintf("exit %d: %s", code, stderr.String())
+		return nil, "", fmt.Sprintf("exit %d: %s", code, stderr.String())
 	}
-	items := strings.Split(stdout.String(), "\x00")
-	if items[len(items)-1] != "" {
-		return nil, "output not NUL-terminated"
+	if c.tail {
+		return nil, "", "output not NUL-terminated"
 	}
-	return e.normalise(items[:len(items)-1]), ""
+	if c.items == nil {
+		c.items = []string{}
+	}
+	return e.normalise(c.items), "", ""
 }
 
 type vwGot struct {
-	Pkg [][]string `json:"pkg"`
-	Bin [][]string `json:"bin"`
+	Pkg    [][]string `json:"pkg"`
+	Bin    [][]string `json:"bin"`
+	PkgCut []string   `json:"pkgcut"` // per run: "" | "cap" | "deadline" (the walk was stopped by the harness)
+	BinCut []string   `json:"bincut"`
 }
 
 func TestVerifWalker(t *testing.T) {
@@ -269,19 +416,22 @@ func TestVerifWalker(t *testing.T) {
 		if err := e.materialise(c.Nodes); err != nil {
 			return err
 		}
-		got := vwGot{Pkg: [][]string{}, Bin: [][]string{}}
+		got := vwGot{Pkg: [][]string{}, Bin: [][]string{}, PkgCut: []string{}, BinCut: []string{}}
 		errs := []string{}
 		for i, r := range c.Runs {
-			got.Pkg = append(got.Pkg, e.walkPkg(r))
+			items, cut := e.walkPkg(r)
+			got.Pkg = append(got.Pkg, items)
+			got.PkgCut = append(got.PkgCut, cut)
 			if r.Bin {
 				if e.fzf == "" {
 					return fmt.Errorf("run flagged bin but VERIF_FZF is not set")
 				}
-				items, es := e.walkBin(r, id+i)
+				items, cut, es := e.walkBin(r, id+i)
 				if es != "" {
 					errs = append(errs, es)
 				}
 				got.Bin = append(got.Bin, items)
+				got.BinCut = append(got.BinCut, cut)
 			}
 		}
 		e.cleanup()
@@ -322,6 +472,8 @@ type vwRandIn struct {
 	MaxNodes int   `json:"maxnodes"`
 	MaxDepth int   `json:"maxdepth"`
 	Bin      bool  `json:"bin"`
+	Cyc      bool  `json:"cyc"` // links may close cycles (own directory, ancestor, working directory, any directory)
+	Cap      int   `json:"cap"` // item budget of the walk
 }
 type vwRecord struct {
 	Seed  int64    `json:"seed"`
@@ -331,13 +483,17 @@ type vwRecord struct {
 	Roots []vwRoot `json:"roots"`
 	Via   string   `json:"via"`
 	Out   []string `json:"out"`
+	Cut   string   `json:"cut"` // "" | "cap" | "deadline": the walk was stopped by the harness, out is partial
+	Cap   int      `json:"cap"`
 	Err   string   `json:"err,omitempty"`
 }
 
 func vwKey(p []string) string { return strings.Join(p, "/") }
 
-// vwRandomTree builds an acyclic random tree: nodes, and the list of real directories (root = empty path first).
-func vwRandomTree(rng *rand.Rand, maxNodes, maxDepth int) ([]vwNode, [][]string) {
+// vwRandomTree builds a random tree: nodes, and the list of real directories (root = empty path first).  Without cyc
+// no link closes a cycle; with cyc a link to a directory points to its own directory, an ancestor (the working
+// directory included) or any directory at all, so that cycles through several links arise too.
+func vwRandomTree(rng *rand.Rand, maxNodes, maxDepth int, cyc bool) ([]vwNode, [][]string) {
 	n := maxNodes/4 + rng.Intn(maxNodes-maxNodes/4+1)
 	nodes := []vwNode{}
 	dirs := [][]string{{}}
@@ -385,7 +541,18 @@ func vwRandomTree(rng *rand.Rand, maxNodes, maxDepth int) ([]vwNode, [][]string)
 		case w < 90:
 			kind = "lnone"
 		default:
-			if links < 3 && len(dirs) > 1 {
+			if cyc && links < 4 {
+				switch rng.Intn(4) {
+				case 0: // own directory
+					target = append([]string{}, parent...)
+				case 1: // an ancestor (possibly the working directory)
+					target = append([]string{}, parent[:rng.Intn(len(parent)+1)]...)
+				default: // any directory
+					target = append([]string{}, dirs[rng.Intn(len(dirs))]...)
+				}
+				kind = "ldir"
+				links++
+			} else if links < 3 && len(dirs) > 1 {
 				t := dirs[1+rng.Intn(len(dirs)-1)]
 				seen := map[string]bool{}
 				reach(t, seen)
@@ -490,14 +657,17 @@ func TestVerifWalkerRandom(t *testing.T) {
 			return err
 		}
 		rng := rand.New(rand.NewSource(in.Seed))
-		nodes, dirs := vwRandomTree(rng, in.MaxNodes, in.MaxDepth)
+		nodes, dirs := vwRandomTree(rng, in.MaxNodes, in.MaxDepth, in.Cyc)
 		o := vwOpts{File: rng.Intn(7) > 0, Dir: rng.Intn(2) == 0, Follow: rng.Intn(2) == 0, Hidden: rng.Intn(3) > 0}
+		if in.Cyc && rng.Intn(4) > 0 {
+			o.Follow = true
+		}
 		if in.Bin && !o.File && !o.Dir {
 			o.File = true
 		}
 		pats := vwRandomPats(rng, nodes)
 		roots := vwRandomRoots(rng, dirs)
-		run := vwRun{File: o.File, Dir: o.Dir, Follow: o.Follow, Hidden: o.Hidden, Skips: []string{}, Roots: []string{}}
+		run := vwRun{File: o.File, Dir: o.Dir, Follow: o.Follow, Hidden: o.Hidden, Skips: []string{}, Roots: []string{}, Cap: in.Cap}
 		for _, p := range pats {
 			run.Skips = append(run.Skips, vwPatString(p))
 		}
@@ -507,15 +677,15 @@ func TestVerifWalkerRandom(t *testing.T) {
 		if err := e.materialise(nodes); err != nil {
 			return err
 		}
-		rec := vwRecord{Seed: in.Seed, Nodes: nodes, O: o, Skips: pats, Roots: roots, Via: "pkg"}
+		rec := vwRecord{Seed: in.Seed, Nodes: nodes, O: o, Skips: pats, Roots: roots, Via: "pkg", Cap: run.capItems()}
 		if in.Bin {
 			rec.Via = "bin"
-			rec.Out, rec.Err = e.walkBin(run, 1+2*int(in.Seed%2))
+			rec.Out, rec.Cut, rec.Err = e.walkBin(run, 1+2*int(in.Seed%2))
 			if rec.Out == nil {
 				rec.Out = []string{}
 			}
 		} else {
-			rec.Out = e.walkPkg(run)
+			rec.Out, rec.Cut = e.walkPkg(run)
 		}
 		e.cleanup()
 		out.Put(rec)
